@@ -5,6 +5,7 @@ NAME = "fillomino"
 MODULE = "cspuz.puzzle.fillomino"
 FUNC = "solve_fillomino"
 TIER1 = ("Fillomino", "solve_fillomino_model")
+TIER1_PRIM = ("FillominoPrim", "solve_fillomino_model_prim")
 
 
 def call(mod, pb):
